@@ -10,6 +10,9 @@ import PhpVerif.Model.Render
 import PhpVerif.Props.C15
 import PhpVerif.Gen.Tables7
 import PhpVerif.Gen.Tables5
+import PhpVerif.Gen.Terms7
+import PhpVerif.Gen.Terms5
+import PhpVerif.Gen.Builder
 /-
 Line-protocol driver: runs the executable model definitions on the operations the Go harness
 also runs on the real code.  One request per line, one answer per line.  Core only (no Mathlib)
@@ -215,10 +218,59 @@ def yyFaultStr : YYFault → String
 
 def runYY (t : YYTab) (chars : List Nat) : String :=
   let input := chars.toArray
-  match yyRun t unitSem input (64 * (chars.length + 16) + 1024) (yyInit unitSem) with
+  match yyRun t unitSem input (64 * (chars.length + 16) + 1024) (yyInit unitSem ()) with
   | .error f => yyFaultStr f
   | .ok (none, _) => "fuel"
   | .ok (some c, s) => s!"{c} " ++ " ".intercalate ((s.trace.reverse.map (yyEvStr t)).filter (· ≠ ""))
+
+/-! `parse <5|7> <tokens>`: the whole-parser model on a token stream.  Token entries are separated by `;`:
+    `id:sl:el:sp:ep[:hexvalue]`, or `id:-` for a token without position (the end token). -/
+def pathTable7 : PathTable := mkPathTable Gen.terms7
+def pathTable5 : PathTable := mkPathTable Gen.terms5
+
+def parseTokInfo (w : String) : Option TokInfo :=
+  match w.splitOn ":" with
+  | [id, "-"] => id.toNat?.map (fun i => { id := i, pos := none })
+  | [id, a, b, c, d] =>
+    match id.toNat?, parseInt a, parseInt b, parseInt c, parseInt d with
+    | some i, some a, some b, some c, some d => some { id := i, pos := some (a, b, c, d) }
+    | _, _, _, _, _ => none
+  | [id, a, b, c, d, h] =>
+    match id.toNat?, parseInt a, parseInt b, parseInt c, parseInt d with
+    | some i, some a, some b, some c, some d => some { id := i, pos := some (a, b, c, d), val := some ((unhex h).map (·.toNat)) }
+    | _, _, _, _, _ => none
+  | _ => none
+
+def natsHex (l : List Nat) : String :=
+  if l.isEmpty then "-" else String.ofList (l.flatMap (fun x => [hexDigit (x / 16), hexDigit (x % 16)]))
+
+mutual
+partial def vStr : V → String
+  | .nil => "_"
+  | .tok i => s!"t{i}"
+  | .pos a b c d => s!"p{a}:{b}:{c}:{d}"
+  | .node k _ fs => s!"N{k}(" ++ ",".intercalate (vStrs fs) ++ ")"
+  | .list xs => "[" ++ ",".intercalate (vStrs xs) ++ "]"
+  | .bytes pre i => s!"b{natsHex pre}+{i}"
+  | .bad => "!"
+partial def vStrs : List V → List String
+  | [] => []
+  | x :: r => vStr x :: vStrs r
+end
+
+def runParse (t : YYTab) (tbl : PathTable) (ws : String) : String :=
+  let entries := if ws == "-" then [] else ws.splitOn ";"
+  match entries.mapM parseTokInfo with
+  | none => "bad-op"
+  | some toks =>
+    match parseModel t Gen.posCombs tbl toks.toArray with
+    | .error f => yyFaultStr f
+    | .ok (none, _) => "fuel"
+    | .ok (some c, s) =>
+      let root := match s.aux.root with
+        | some r => vStr r
+        | none => "_"
+      s!"{c} {s.aux.reports} {root}"
 
 def handle (ws : List String) : String :=
   match ws with
@@ -318,6 +370,8 @@ def handle (ws : List String) : String :=
     match pTree (enc.splitOn ",") with
     | some (t, []) => "x" ++ toHex (render litBytes (chunks C15.realCfg false t))
     | _ => "bad-op"
+  | ["parse", "7", ts] => runParse Gen.tables7 pathTable7 ts
+  | ["parse", "5", ts] => runParse Gen.tables5 pathTable5 ts
   | ["yy", "7", cs] => runYY Gen.tables7 (parseNats cs)
   | ["yy", "5", cs] => runYY Gen.tables5 (parseNats cs)
   | ["nlscan", h, ps] => natsStr (NL.scan (unhex h) (parseNats ps))
